@@ -5,25 +5,40 @@ Legs:
            model `PdeVerif.Matrix` over exact rationals, for every grid class and random conditions per
            side (value, derivative, mixed, curvature, periodic; homogeneous and per-face arrays).
   solve  : `solve_poisson_equation` / `solve_laplace_equation` on the same problems; the returned field is
-           fed back into `field.laplace(bc)` (numba stencil route) and must reproduce the right-hand side;
-           unsolvable problems (pure Neumann/periodic with incompatible rhs, degenerate curvature rows)
-           must raise RuntimeError instead of returning a field."""
+           fed back into `field.laplace(bc)` (numba stencil route) and must reproduce the right-hand side to solver
+           accuracy (the solver's own acceptance test, per row; non-finite values fail).
+           Every problem is classified independently of the solver: exact rank of the model matrix over Q and
+           the distance of `rhs - vec` from the range of the real matrix.  Problems without a solution must raise
+           RuntimeError instead of returning a field; a RuntimeError on a problem that HAS a solution (full rank,
+           or singular with the right-hand side in the range) is a monitor failure as well: "problems without a
+           solution are reported as errors" is judged in both directions."""
 import math
 from fractions import Fraction
 
 import numpy as np
 
 from harness import c02
-from harness.common.num import q, unq
+from harness.common.num import q, unq, arr_far
 from harness.common.isolated import run_many
 
 PID = "C18"
 LEVEL = "proof"
 REQUIRED_THEOREMS = [
-    "rowEntry_add_only", "matvec_set_first", "axisOps_apply", "bcData_ghost", "cart1_row_apply",
-    "cart1_matrix_eq_laplace_with_bc", "polar_matrix_eq_laplace_with_bc", "polar_rmin0_row_eq_laplace",
-    "sph_matrix_eq_laplace_with_bc", "cart2_row_apply", "cyl_row_apply", "cart1_matvec_eq_progSum",
-    "residual_identity", "curvature_row_degenerate",
+    "rowEntry_add_only", "matvec_set_first", "axisOps_apply", "bcData_ghost", "bcData_entries_lt", "axisOps_adds",
+    "cart1_row_apply", "cart2_row_apply", "cart3_row_apply", "cyl_row_apply",
+    # rows = stencil of C01 on the ghost-extended array, every class, also r_min = 0 (all rows)
+    "cart1_matrix_eq_laplace_with_bc", "cart2_matrix_eq_laplace_with_bc", "cart3_matrix_eq_laplace_with_bc",
+    "polar_matrix_eq_laplace_with_bc", "polar_rmin0_row_eq_laplace", "polar_disk_matrix_eq_laplace",
+    "sph_matrix_eq_laplace_with_bc", "sph_ball_matrix_eq_laplace", "cyl_matrix_eq_laplace_with_bc",
+    # the assembled entries the driver evaluates (rowEntry / matvec) = the terms, for every row program
+    "cart1_matvec_eq_progSum", "polar_matvec_eq_progSum", "sph_matvec_eq_progSum", "cart2_matvec_eq_progSum",
+    "cart3_matvec_eq_progSum", "cyl_matvec_eq_progSum",
+    # composition with bcData
+    "cart1_assembled_eq_laplace", "polar_assembled_eq_laplace", "polar_disk_assembled_eq_laplace", "sph_assembled_eq_laplace",
+    "sph_ball_assembled_eq_laplace", "cart2_assembled_eq_laplace", "cart3_assembled_eq_laplace", "cyl_assembled_eq_laplace",
+    "padded_line_exists", "padded_plane_exists",
+    "residual_identity", "curvature_row_degenerate", "curvature_row_degenerate_upper", "curvature_row_vanishes",
+    "curvature_row_vanishes_upper",
 ]
 RULE = ("seed-derived grids of all classes with 2-5 cells per axis (1-3 axes Cartesian, polar, spherical, cylindrical; "
         "with/without hole; periodic flags), one condition per side from value/derivative/mixed/curvature/periodic with "
@@ -32,17 +47,77 @@ RULE = ("seed-derived grids of all classes with 2-5 cells per axis (1-3 axes Car
 ASSUMPTIONS = ["matrix entries compared at 1e-11 relative to the largest entry", "spsolve/lsmr are external: their output is checked by the residual, never trusted"]
 TRUSTED_EXTRA = ["scipy.sparse dok semantics (assignment vs accumulate) are mirrored by the model's row programs"]
 
+MODS = {"cart": "cartesian", "polar": "polar_sym", "sph": "spherical_sym", "cyl": "cylindrical_sym"}
 CLS = {"UnitGrid": "cart", "CartesianGrid": "cart", "PolarSymGrid": "polar", "SphericalSymGrid": "sph", "CylindricalSymGrid": "cyl"}
 
 
-def gen_case(rng):
+KINDS = {"dirichlet", "neumann", "mixed", "curvature", "periodic", "antiperiodic"}
+
+
+SINGULAR_KINDS = {"neumann", "curvature", "periodic"}
+
+
+def gen_case(rng, singular=False):
+    """the conditions of the property's quantifier (value, derivative, mixed, curvature, periodic) on scalar fields;
+    expression conditions have no sparse-matrix data and are outside the quantifier; a Robin coefficient with
+    2 + dx*gamma = 0 has no finite virtual-point formula (C02) and is not drawn here.
+    `singular`: the stratum of pure Neumann / periodic / curvature problems, whose matrices are singular - the problems
+    for which the statement demands an error (incompatible right-hand side) or a solution (compatible one)"""
     while True:
         c = c02.gen_case(rng, lambda *a, **k: None)
-        if c["rank"] != 0 or min(c["grid"]["shape"]) < 2:
+        g = c["grid"]
+        if c["rank"] != 0 or min(g["shape"]) < 2:
             continue
-        if any(s["kind"].startswith("expr") for s in c["sides"].values()):
+        if any(s["kind"] not in (SINGULAR_KINDS if singular else KINDS) for s in c["sides"].values()):
             continue
-        return c
+        ok = True
+        for (ax, _up), s in c["sides"].items():
+            if s["kind"] == "mixed":
+                dx = Fraction(g["bounds"][ax][1] - g["bounds"][ax][0]) / g["shape"][ax]
+                try:
+                    ok = ok and all(2 + dx * Fraction(x) != 0 for x in s["v"])
+                except (ValueError, OverflowError, TypeError):  # non-finite coefficient
+                    ok = False
+        if ok:
+            return c
+
+
+EDGE_ALIAS = {"dirichlet": "value", "neumann": "derivative", "curvature": "curvature"}
+
+
+def edge_case(gd, conds):
+    """a hand-picked case in the format of `c02.gen_case` (scalar values): conds = {(axis, upper): (kind, value)}"""
+    axes = list(c02.AXES[gd["cls"]])
+    sides, spec = {}, {}
+    for ax in range(len(gd["shape"])):
+        if gd["periodic"][ax]:
+            for up in (False, True):
+                sides[(ax, up)] = {"kind": "periodic", "normal": False, "v": None, "c": None, "vshape": [], "alias": "periodic"}
+            spec[axes[ax]] = "periodic"
+            continue
+        for up in (False, True):
+            kind, val = conds[(ax, up)]
+            sides[(ax, up)] = {"kind": kind, "normal": False, "v": [Fraction(val)], "c": None, "vshape": [], "alias": EDGE_ALIAS[kind]}
+            spec[axes[ax] + ("+" if up else "-")] = {EDGE_ALIAS[kind]: float(val)}
+    return {"grid": gd, "rank": 0, "sides": sides, "spec": spec, "edge": True}
+
+
+def edge_cases():
+    """singular problems at the corners of the solver's code paths, present in every run (each was found by the random
+    generator first): vanishing matrix rows (curvature on a Cartesian axis), the zero matrix, pure Neumann on an
+    anisotropic grid, a singular matrix whose float image is regular, rank deficiency 2"""
+    def cart(shape, bounds, periodic=None):
+        return {"cls": "CartesianGrid", "shape": shape, "bounds": bounds, "periodic": periodic or [False] * len(shape)}
+    cu, ne, di = "curvature", "neumann", "dirichlet"
+    return [
+        edge_case(cart([2, 2], [[-2.75, -1.25], [0.0, 0.25]], [False, True]), {(0, False): (cu, -0.5), (0, True): (cu, -0.5)}),
+        edge_case({"cls": "UnitGrid", "shape": [4], "bounds": [[0.0, 4.0]], "periodic": [False]}, {(0, False): (cu, 0.5), (0, True): (cu, -1.0)}),
+        edge_case(cart([4, 3], [[0.0, 8.0], [0.0, 0.375]]), {(0, False): (ne, 0), (0, True): (ne, 0), (1, False): (ne, 0), (1, True): (ne, 0)}),
+        edge_case({"cls": "PolarSymGrid", "shape": [2], "bounds": [[2.25, 2.5]], "periodic": [False]}, {(0, False): (cu, 1.0), (0, True): (cu, -2.0)}),
+        edge_case(cart([2], [[0.0, 1.0]]), {(0, False): (cu, 1.0), (0, True): (cu, 1.0)}),
+        edge_case({"cls": "SphericalSymGrid", "shape": [3], "bounds": [[0.0, 1.5]], "periodic": [False]}, {(0, False): (ne, 0), (0, True): (ne, 0.5)}),
+        edge_case(cart([3, 2], [[0.0, 0.375], [3.0, 5.0]]), {(0, False): (cu, -0.25), (0, True): (cu, -0.25), (1, False): (di, 2.0), (1, True): (cu, -1.0)}),
+    ]
 
 
 def model_request(case):
@@ -70,6 +145,24 @@ def model_request(case):
             "dx": [q(Fraction(b[1] - b[0]) / n) for b, n in zip(g["bounds"], g["shape"])], "faces": faces}
 
 
+def _solve_record(pde, grid, spec, M, vec, tag, rhs, laplace_eq=False):
+    """one solve of the real code; the returned field is fed back into `field.laplace(bc)`"""
+    rec = {"tag": tag, "rhs": rhs}
+    try:
+        if laplace_eq:
+            sol = pde.solve_laplace_equation(grid, spec)
+        else:
+            sol = pde.solve_poisson_equation(pde.ScalarField(grid, rhs.reshape(grid.shape)), spec)
+        back = sol.laplace(bc=spec)
+        rec["sol"] = np.array(sol.data, dtype=float).ravel()
+        rec["back"] = np.array(back.data, dtype=float).ravel()
+    except Exception as e:  # noqa
+        rec["raised"] = f"{type(e).__name__}: {e}"[:200]
+        cause = e.__cause__ if e.__cause__ is not None else e
+        rec["cause"] = f"{type(cause).__name__}: {cause}"[:200]
+    return rec
+
+
 def real_case(arg):
     import logging
     import importlib
@@ -80,7 +173,7 @@ def real_case(arg):
     case, rhs_seed = arg
     grid = c02.make_grid(case["grid"])
     cls = CLS[case["grid"]["cls"]]
-    mod = importlib.import_module("pde.backends.scipy.operators." + {"cart": "cartesian", "polar": "polar_sym", "sph": "spherical_sym", "cyl": "cylindrical_sym"}[cls])
+    mod = importlib.import_module("pde.backends.scipy.operators." + MODS[cls])
     out = {}
     try:
         bcs = grid.get_boundary_conditions(case["spec"], rank=0)
@@ -94,46 +187,132 @@ def real_case(arg):
     n = M.shape[0]
     # right-hand sides: random; and one in the range of the matrix (always solvable)
     rhs_list = [("random", rs.uniform(-2, 2, n)), ("in-range", M @ rs.uniform(-2, 2, n) + vec)]
-    sols = []
-    for tag, rhs in rhs_list:
-        f = pde.ScalarField(grid, rhs.reshape(grid.shape))
-        rec = {"tag": tag, "rhs": rhs}
-        # exact solvability by dense least squares
-        x, *_ = np.linalg.lstsq(M, rhs - vec, rcond=None)
-        rec["lstsq_residual"] = float(np.abs(M @ x - (rhs - vec)).max())
-        try:
-            sol = pde.solve_poisson_equation(f, case["spec"])
-            back = sol.laplace(bc=case["spec"])
-            rec["residual"] = float(np.abs(back.data - f.data).max())
-            rec["matrix_residual"] = float(np.abs(M @ sol.data.ravel() + vec - rhs).max())
-            rec["sol_max"] = float(np.abs(sol.data).max())
-        except RuntimeError as e:
-            rec["raised"] = f"RuntimeError: {e}"[:200]
-        except Exception as e:  # noqa
-            rec["raised"] = f"{type(e).__name__}: {e}"[:200]
-        sols.append(rec)
-    out["sols"] = sols
+    out["sols"] = [_solve_record(pde, grid, case["spec"], M, vec, tag, rhs) for tag, rhs in rhs_list]
     # Laplace equation (rhs = 0)
-    try:
-        sol = pde.solve_laplace_equation(grid, case["spec"])
-        out["laplace_residual"] = float(np.abs(sol.laplace(bc=case["spec"]).data).max())
-        out["laplace_max"] = float(np.abs(sol.data).max())
-    except RuntimeError as e:
-        out["laplace_raised"] = f"RuntimeError: {e}"[:200]
-        x, *_ = np.linalg.lstsq(M, -vec, rcond=None)
-        out["laplace_lstsq_residual"] = float(np.abs(M @ x + vec).max())
-    except Exception as e:  # noqa
-        out["laplace_raised"] = f"{type(e).__name__}: {e}"[:200]
+    out["sols"].append(_solve_record(pde, grid, case["spec"], M, vec, "laplace-eq", np.zeros(n), laplace_eq=True))
     return out
+
+
+# ------------------------------------------------------------------------------------------
+# classification of a linear problem `M x = rhs - vec` (independent of the solver under test)
+def exact_rank(entries, n):
+    """rank over Q of the n x n matrix given by (row, col, Fraction) triples"""
+    rows = [dict() for _ in range(n)]
+    for r_, c_, v_ in entries:
+        if v_ != 0:
+            rows[r_][c_] = v_
+    rank = 0
+    for col in range(n):
+        piv = next((i for i in range(rank, n) if rows[i].get(col)), None)
+        if piv is None:
+            continue
+        rows[rank], rows[piv] = rows[piv], rows[rank]
+        pr = rows[rank]
+        pv = pr[col]
+        for i in range(rank + 1, n):
+            f = rows[i].get(col)
+            if f:
+                f = f / pv
+                ri = rows[i]
+                for k, x in pr.items():
+                    nv = ri.get(k, 0) - f * x
+                    if nv:
+                        ri[k] = nv
+                    else:
+                        ri.pop(k, None)
+        rank += 1
+    return rank
+
+
+def float_rank(M):
+    """numerical rank of the real dense matrix (fallback when the exact model matrix is not available)"""
+    sv = np.linalg.svd(M, compute_uv=False)
+    return int(np.sum(sv > 1e-9 * max(sv[0], 1e-300))) if len(sv) else 0
+
+
+def classify(M, vec, rhs, rank):
+    """-> (class, dist, cond): class in {"well-posed", "ill-conditioned", "consistent", "inconsistent", "borderline"};
+    dist = max-norm distance of `rhs - vec` from the range of M (M has the given rank: range = span of the first
+    `rank` left singular vectors); cond = ratio of the largest to the `rank`-th singular value"""
+    n = M.shape[0]
+    b = rhs - vec
+    U, sv, _ = np.linalg.svd(M)
+    cond = float(sv[0] / sv[rank - 1]) if rank else 1.0   # rank 0: the zero matrix, its range is {0}
+    scale = 1.0 + float(np.abs(b).max())
+    if rank == n:
+        return ("well-posed" if cond <= 1e8 else "ill-conditioned"), 0.0, cond
+    Ur = U[:, :rank]
+    dist = float(np.abs(b - Ur @ (Ur.T @ b)).max())
+    if cond > 1e8:
+        return "ill-conditioned", dist, cond
+    if dist <= 1e-9 * scale:
+        return "consistent", dist, cond
+    if dist > 1e-3 * scale:
+        return "inconsistent", dist, cond
+    return "borderline", dist, cond
+
+
+def solver_tolerance(M, vec, rhs, sol):
+    """`solver accuracy` per row: the solver accepts x iff allclose(M x, rhs - vec, rtol=1e-5, atol=1e-5), and the
+    feed-back through the stencil route differs from `M x + vec` by round-off only (a factor 2 of slack)"""
+    b = rhs - vec
+    rnd = 1e-11 * (1.0 + float(np.abs(M).max())) * (1.0 + float(np.abs(sol).max()) if np.all(np.isfinite(sol)) else 1.0)
+    return 2e-5 * (1.0 + np.abs(b)) + rnd
+
+
+def judge(cls, kinds, M, vec, rec, rank):
+    """the property monitor for one solve -> None or (observed, expected, what, key)"""
+    rhs = rec["rhs"]
+    kind, dist, cond = classify(M, vec, rhs, rank)
+    info = {"problem_class": kind, "rank": rank, "n": int(M.shape[0]), "distance_of_rhs_from_range": dist}
+    if "raised" in rec:
+        if not rec["raised"].startswith("RuntimeError"):
+            return (dict(info, raised=rec["raised"]), "a field or RuntimeError", "solver raised an unexpected exception class",
+                    {"cls": cls, "symptom": "unexpected-exception"}), kind
+        if kind == "well-posed":
+            return (dict(info, raised=rec["raised"], cause=rec["cause"], condition_number=cond),
+                    "a field: the matrix has full rank", f"{cls}: solver raised on a well-posed problem (unique solution exists)",
+                    {"call_site": "make_general_poisson_solver", "symptom": "raised-on-full-rank-system"}), kind
+        if kind == "consistent":
+            cause = ("spsolve-RuntimeError" if "factorize" in rec["cause"] else
+                     "lsmr-not-converged" if "could not be solved" in rec["cause"] else "other")
+            return (dict(info, raised=rec["raised"], cause=rec["cause"]),
+                    "a field: the right-hand side is in the range of the (singular) matrix",
+                    f"{cls}: solver raised although the problem has a solution ({cause})",
+                    {"call_site": "make_general_poisson_solver", "symptom": "raised-on-consistent-singular-system", "cause": cause}), kind
+        return None, kind
+    sol, back = rec["sol"], rec["back"]
+    if kind == "inconsistent":
+        finite = bool(np.all(np.isfinite(sol)))
+        # a "solution" so large that the round-off of evaluating `M x` exceeds the solver's tolerance: the solver's
+        # residual test cannot tell it from a solution (spsolve on a matrix that is singular up to one ulp)
+        huge = finite and bool(np.any(np.finfo(float).eps * (np.abs(M) @ np.abs(sol)) > 1e-5 * (1.0 + np.abs(rhs - vec))))
+        key = ({"call_site": "make_general_poisson_solver", "symptom": "unsolvable-returned", "cause": "residual-test-below-roundoff"}
+               if huge else {"cls": cls, "symptom": "unsolvable-returned"})
+        return (dict(info, residual=float(np.abs(back - rhs).max()) if np.all(np.isfinite(back)) else "non-finite",
+                     max_abs_solution=float(np.abs(sol).max()) if finite else "non-finite"),
+                "RuntimeError for a problem without solution", f"{cls}: unsolvable problem returned a field"
+                + (" (huge vector that passes the solver's residual test by round-off)" if huge else ""), key), kind
+    tol = solver_tolerance(M, vec, rhs, sol)
+    if arr_far(back, rhs, tol):
+        with np.errstate(invalid="ignore"):
+            d = np.abs(back - rhs)
+        i_ = int(np.argmax(np.where(np.isfinite(d), d / tol, np.inf)))
+        mres = M @ sol + vec - rhs
+        return (dict(info, row=i_, residual_of_laplace_bc=float(d[i_]), matrix_residual=float(np.abs(mres).max()) if np.all(np.isfinite(mres)) else "non-finite",
+                     finite=bool(np.all(np.isfinite(sol)))),
+                f"|laplace(solution) - rhs|[{i_}] <= {float(tol[i_]):.2g}", f"{cls}: returned field does not solve the discrete problem",
+                {"cls": cls, "kinds": ",".join(kinds)}), kind
+    return None, kind
 
 
 def run(ctx):
     from harness.common.lean import LeanBatch
 
     rng = ctx.rng
-    n = ctx.budget(150, 1500)
+    n = ctx.budget(400, 2000)
     batch = LeanBatch(ctx.workdir)
-    cases = [gen_case(rng) for _ in range(n)]
+    cases = edge_cases() + [gen_case(rng, singular=(i % 4 == 3)) for i in range(n)]
     reqs = [batch.add("c18.matrix", model_request(c)) for c in cases]
     answers = batch.run()
     res = run_many("harness.c18", "real_case", [(c, rng.randint(0, 10 ** 6)) for c in cases],
@@ -144,6 +323,8 @@ def run(ctx):
         kinds = sorted({s["kind"] for s in c["sides"].values()})
         key = {"grid": g, "spec": repr(c["spec"])}
         ctx.count(key, nontrivial=True, leg="matrix")
+        if c.get("edge"):
+            ctx.hist("stratum", "edge")
         ctx.hist("class", f"{cls}/{len(g['shape'])}d/{'hole' if cls != 'cart' and g['bounds'][0][0] else 'full'}")
         for k in kinds:
             ctx.hist("bc-kind", k)
@@ -152,82 +333,94 @@ def run(ctx):
             ctx.disagree("matrix", key, "assembles", rr if isinstance(rr, str) else rr["error"], "real assembly failed")
             continue
         st, val = answers[ri]
+        M = rr["m"]
+        rank = None
         if st != "ok":
             ctx.disagree("matrix", key, f"model error {val}", None)
-            continue
-        M = rr["m"]
-        model = np.zeros_like(M)
-        for r_, c_, v_ in val["m"]:
-            model[r_, c_] = float(unq(v_))
-        mv = np.array([float(unq(x)) for x in val["v"]])
-        sc = max(1e-300, np.abs(model).max())
-        bad = np.argwhere(np.abs(model - M) > 1e-11 * sc)
-        if len(bad):
-            r_, c_ = (int(x) for x in bad[0])
-            ctx.disagree("matrix", dict(key, row=r_, col=c_), float(model[r_, c_]), float(M[r_, c_]), f"{len(bad)} matrix entries differ")
-        if np.abs(mv - rr["v"]).max() > 1e-11 * max(sc, np.abs(mv).max()):
-            i_ = int(np.argmax(np.abs(mv - rr["v"])))
-            ctx.disagree("vector", dict(key, row=i_), float(mv[i_]), float(rr["v"][i_]), "vector entries differ")
+        else:
+            entries = [(r_, c_, unq(v_)) for r_, c_, v_ in val["m"]]
+            model = np.zeros_like(M)
+            for r_, c_, v_ in entries:
+                model[r_, c_] = float(v_)
+            mv = np.array([float(unq(x)) for x in val["v"]])
+            sc = max(1e-300, np.abs(model).max())
+            with np.errstate(invalid="ignore"):
+                bad = np.argwhere(~(np.abs(model - M) <= 1e-11 * sc))
+            tie = True
+            if len(bad):
+                tie = False
+                r_, c_ = (int(x) for x in bad[0])
+                ctx.disagree("matrix", dict(key, row=r_, col=c_), float(model[r_, c_]), float(M[r_, c_]), f"{len(bad)} matrix entries differ")
+            if arr_far(mv, rr["v"], 1e-11 * max(sc, np.abs(mv).max())):
+                with np.errstate(invalid="ignore"):
+                    dv = np.abs(mv - rr["v"])
+                i_ = int(np.argmax(np.where(np.isfinite(dv), dv, np.inf))) if dv.shape == mv.shape else -1
+                ctx.disagree("vector", dict(key, row=i_), float(mv[i_]) if i_ >= 0 else len(mv),
+                             float(rr["v"][i_]) if i_ >= 0 else len(rr["v"]), "vector entries differ")
+            if tie:
+                rank = exact_rank(entries, M.shape[0])   # exact over Q: independent of round-off in the real matrix
+        if rank is None:
+            rank = float_rank(M) if np.all(np.isfinite(M)) else 0
+        ctx.hist("rank", "full" if rank == M.shape[0] else f"deficient by {min(M.shape[0] - rank, 3)}{'+' if M.shape[0] - rank > 3 else ''}")
         # ---- property monitor ---------------------------------------------------------------------
+        if not (np.all(np.isfinite(M)) and np.all(np.isfinite(rr["v"]))):
+            ctx.monitor_fail("matrix", key, "non-finite entries", "a finite matrix and vector", f"{cls}: Laplace matrix has non-finite entries",
+                             key={"cls": cls, "symptom": "non-finite-matrix"})
+            continue
         for rec in rr["sols"]:
             ctx.monitor_evals += 1
-            scale = 1.0 + np.abs(rec["rhs"]).max()
-            mkey = dict(key, rhs=[float(x) for x in rec["rhs"]], rhs_kind=rec["tag"])
-            if "raised" in rec:
-                ctx.hist("solve", f"{rec['tag']}:raised")
-                if not rec["raised"].startswith("RuntimeError"):
-                    ctx.monitor_fail("solve", mkey, rec["raised"], "a field or RuntimeError", "solver raised an unexpected exception class",
-                                     key={"cls": cls, "symptom": "unexpected-exception"})
-                elif rec["lstsq_residual"] < 1e-9 * scale and rec["tag"] == "in-range":
-                    # a solvable problem reported as unsolvable is outside the property statement; recorded only
-                    ctx.hist("solve", "solvable-but-raised")
-                continue
-            ctx.hist("solve", f"{rec['tag']}:returned")
-            tol = 1e-4 * max(scale, rec.get("sol_max", 0.0) * 1e-1)
-            if rec["residual"] > tol:
-                ctx.monitor_fail("solve", mkey, {"residual_of_laplace(bc)": rec["residual"], "matrix_residual": rec["matrix_residual"],
-                                                 "least_squares_residual": rec["lstsq_residual"]},
-                                 f"|laplace(solution) - rhs| <= {tol:.2g}", f"{cls}: returned field does not solve the discrete problem",
-                                 key={"cls": cls, "kinds": ",".join(kinds)})
-            elif rec["lstsq_residual"] > 1e-3 * scale:
-                ctx.monitor_fail("solve", mkey, {"least_squares_residual": rec["lstsq_residual"], "residual": rec["residual"]},
-                                 "RuntimeError for an unsolvable problem", f"{cls}: unsolvable problem returned a field",
-                                 key={"cls": cls, "symptom": "unsolvable-returned"})
-        ctx.monitor_evals += 1
-        if "laplace_residual" in rr and rr["laplace_residual"] > 1e-4 * (1 + rr.get("laplace_max", 0) * 0.1 + np.abs(rr["v"]).max()):
-            ctx.monitor_fail("laplace-eq", key, {"residual": rr["laplace_residual"]}, "laplace(solution) = 0",
-                             f"{cls}: solve_laplace_equation result is not harmonic", key={"cls": cls})
-        if "laplace_raised" in rr and not rr["laplace_raised"].startswith("RuntimeError"):
-            ctx.monitor_fail("laplace-eq", key, rr["laplace_raised"], "a field or RuntimeError", "unexpected exception class",
-                             key={"cls": cls, "symptom": "unexpected-exception"})
+            leg = "laplace-eq" if rec["tag"] == "laplace-eq" else "solve"
+            mkey = dict(key, rank=rank, rhs_kind=rec["tag"])
+            if leg == "solve":
+                mkey["rhs"] = [float(x) for x in rec["rhs"]]
+            verdict, kind = judge(cls, kinds, M, rr["v"], rec, rank)
+            ctx.hist("solve", f"{rec['tag']}:{kind}:{'raised' if 'raised' in rec else 'returned'}")
+            if verdict is not None:
+                observed, expected, what, fkey = verdict
+                ctx.monitor_fail(leg, mkey, observed, expected, what, key=fkey)
 
 
 def replay(ctx, rep):
-    """re-run the recorded problem on the real code: solve, feed back, compare"""
+    """re-run the recorded problem on the real code (same grid, conditions and right-hand side; Laplace-equation leg:
+    rhs = 0) and judge it with the monitor of the run; False iff the recorded symptom (same finding key) is still there"""
     import logging
+    import importlib
     import pde
-    from numpy import array  # noqa: F401  (used by eval of the recorded specification)
 
     logging.getLogger("pde").setLevel(logging.CRITICAL)
-    c = rep["case"]
+    c = rep.get("case") or {}
+    if "grid" not in c or "spec" not in c:
+        print("this file records no (grid, conditions) case that could be re-run:", sorted(c))
+        return False
     grid = c02.make_grid(c["grid"])
+    cls = CLS[c["grid"]["cls"]]
     spec = eval(c["spec"], {"array": np.array, "nan": float("nan"), "inf": float("inf")})
-    if "rhs" not in c:
-        # Laplace equation leg: the solution must be harmonic
-        try:
-            sol = pde.solve_laplace_equation(grid, spec)
-        except RuntimeError as e:
-            print("solver raised:", e)
-            return True
-        res = float(np.abs(sol.laplace(bc=spec).data).max())
-        print("max |laplace(solution)| =", res)
-        return res <= 1e-4 * (1 + 0.1 * float(np.abs(sol.data).max()) + 10.0)
-    rhs = pde.ScalarField(grid, np.array(c["rhs"]).reshape(grid.shape))
     try:
-        sol = pde.solve_poisson_equation(rhs, spec)
-    except RuntimeError as e:
-        print("solver raised:", e)
+        bcs = grid.get_boundary_conditions(spec, rank=0)
+        m, v = importlib.import_module("pde.backends.scipy.operators." + MODS[cls])._get_laplace_matrix(bcs)
+        M, vec = np.asarray(m.todense()), np.asarray(v.todense()).ravel()
+    except Exception as e:  # noqa
+        print(f"assembly of the Laplace matrix failed: {type(e).__name__}: {e}")
+        return False
+    if not (np.all(np.isfinite(M)) and np.all(np.isfinite(vec))):
+        print("Laplace matrix has non-finite entries")
+        return False
+    if rep.get("leg") == "matrix":
+        print("matrix assembles with finite entries")
         return True
-    res = float(np.abs(sol.laplace(bc=spec).data - rhs.data).max())
-    print("max |laplace(solution) - rhs| =", res)
-    return res <= 1e-4 * (1 + float(np.abs(rhs.data).max()) + 0.1 * float(np.abs(sol.data).max()))
+    laplace_eq = rep.get("leg") == "laplace-eq" or "rhs" not in c
+    rhs = np.zeros(M.shape[0]) if laplace_eq else np.array(c["rhs"], dtype=float)
+    rec = _solve_record(pde, grid, spec, M, vec, c.get("rhs_kind", "laplace-eq" if laplace_eq else "recorded"), rhs, laplace_eq=laplace_eq)
+    rank = c.get("rank")
+    if rank is None:
+        rank = float_rank(M)
+    # kinds enter the finding key only: take them from the recorded key so that the same defect keeps its key
+    kinds = (rep.get("key") or {}).get("kinds", "").split(",")
+    verdict, kind = judge(cls, kinds, M, vec, rec, rank)
+    print(f"problem class: {kind} (rank {rank} of {M.shape[0]}); solver " + (f"raised {rec['raised']} [{rec['cause']}]" if "raised" in rec else
+          f"returned a field, max |laplace(solution) - rhs| = {float(np.abs(rec['back'] - rhs).max()):.3g}"))
+    if verdict is None:
+        return True
+    observed, expected, what, fkey = verdict
+    print(f"monitor: {what}; observed {observed}; expected {expected}")
+    return False
